@@ -24,6 +24,12 @@ def as_rep(X, container, dtype="f64"):
         return sparse.csr_matrix(X.astype(dt))
     if container == "coo":
         return sparse.coo_matrix(X.astype(dt))
+    if container == "csc_explicit_zeros":
+        # a valid CSC matrix that STORES its zeros (what X.multiply(mask) or zeroing X.data in place leave behind)
+        Xd = np.asarray(X.astype(dt))
+        n, p_ = Xd.shape
+        return sparse.csc_matrix((Xd.ravel(order="F").copy(), np.tile(np.arange(n, dtype=np.int32), p_),
+                                  np.arange(0, n * p_ + 1, n, dtype=np.int32)), shape=(n, p_))
     if container == "csc_idx64":
         A = sparse.csc_matrix(X.astype(dt))
         return sparse.csc_matrix((A.data, A.indices.astype(np.int64), A.indptr.astype(np.int64)), shape=A.shape)
